@@ -379,6 +379,14 @@ func boundaryCases() []kase {
 			[]any{"set", "$.asm[0].n", int64(5)}),
 		mk("eq-2p53", "set", "$.asm", []any{"eq", float64(1 << 53), big, int64(1 << 53)}),
 		mk("lt-2p53", "set", "$.asm", []any{"lt", int64(1 << 53), big}),
+		mk("lt-maxint-2p63", "set", "$.asm", []any{"lt", int64(math.MaxInt64), 9223372036854775808.0}),
+		mk("gte-maxint-2p63", "set", "$.asm", []any{"gte", int64(math.MaxInt64), 9223372036854775808.0}),
+		mk("eq-minint-float", "set", "$.asm", []any{"eq", int64(math.MinInt64), -9223372036854775808.0, int64(math.MinInt64)}),
+		mk("neq-maxint-2p63", "set", "$.asm", []any{"neq", 9223372036854775808.0, int64(math.MaxInt64)}),
+		mk("lt-int-frac", "set", "$.asm", []any{"lt", int64(1), 1.5, int64(2), 2.25, 1e21}),
+		mk("gt-big-float", "set", "$.asm", []any{"gt", 1e21, int64(math.MaxInt64), big, float64(1 << 53), int64(1<<53 - 1)}),
+		mk("lte-chain-2p53", "set", "$.asm", []any{"lte", int64(1 << 53), float64(1 << 53), big, 9007199254740994.0}),
+		mk("lt-neg-2p53", "set", "$.asm", []any{"lt", int64(-(1 << 53) - 1), -float64(1 << 53)}),
 		mk("cyclic-eq", []any{"set", "$.asm", map[string]any{}}, []any{"set", "$.asm.a", "$.asm"}, []any{"set", "$.x", []any{"eq", "$.asm", "$.asm"}}),
 		mk("cyclic-root", []any{"set", "$.asm", "$"}, []any{"set", "$.y", []any{"neq", "$", "$.asm"}}),
 		mk("cyclic-only", []any{"set", "$.asm", "$"}),
